@@ -3,7 +3,7 @@
 From Coq Require Import List String Ascii ZArith Lia Bool Arith.
 From YT Require Import Base.Str Base.KV Base.Sort Model.Doc Model.Dom Model.Pointer Model.Path Model.Builder
   Model.Equals Model.Diff Model.Apply
-  Proofs.StrProofs Proofs.BuilderProofs Proofs.PathProofs Proofs.ListCompProofs Proofs.ApplyProofs.
+  Proofs.StrProofs Proofs.BuilderProofs Proofs.PathProofs Proofs.ListCompProofs Proofs.ApplyProofs Proofs.FrameProofs Proofs.DiffProofs.
 Import ListNotations.
 Local Open Scope list_scope.
 
@@ -99,3 +99,115 @@ Proof.
   rewrite get_steps_path by exact NE.
   apply get_apply_add; [exact NE|]. apply group_safe. exact S.
 Qed.
+
+(* ---------- applySingle(Add/Change) IS AddValueAt on flatten-style paths *)
+Definition sub_of (o : option node) : list (string * node) := match o with Some (Con s) => s | _ => [] end.
+
+Lemma follow_idx_null idxs : idxs <> [] -> follow_idx null idxs = None.
+Proof. destruct idxs; [contradiction|reflexivity]. Qed.
+
+Lemma apply_list_set_idx : forall idxs f x, idxs <> [] ->
+  Lst (apply_list idxs f (as_list x)) = set_idx x idxs (Con (f (sub_of (follow_idx x idxs)))).
+Proof.
+  induction idxs as [|i r IH]; intros f x NE; [contradiction|].
+  destruct r as [|j r'].
+  - cbn [apply_list set_idx]. unfold list_set. f_equal. f_equal. f_equal. f_equal.
+    destruct x as [w|xs|s]; simpl; try reflexivity.
+    + now destruct i.
+    + destruct (nth_error xs i) as [[| |]|]; reflexivity.
+    + now destruct i.
+  - change (apply_list (i :: j :: r') f (as_list x)) with
+      (list_set (as_list x) i (Lst (apply_list (j :: r') f
+         (match nth_error (as_list x) i with Some (Lst xs) => xs | _ => [] end)))).
+    change (set_idx x (i :: j :: r') ?V) with
+      (Lst (list_upd (pad_to (as_list x) (S i)) i
+              (set_idx (nth i (pad_to (as_list x) (S i)) null) (j :: r') V))).
+    unfold list_set. f_equal. f_equal.
+    set (x' := nth i (pad_to (as_list x) (S i)) null).
+    assert (E1 : match nth_error (as_list x) i with Some (Lst xs) => xs | _ => [] end = as_list x').
+    { unfold x'. destruct (nth_error (as_list x) i) as [y|] eqn:N.
+      - unfold pad_to. rewrite app_nth1 by (apply nth_error_Some; congruence).
+        rewrite (nth_error_nth _ _ _ N). now destruct y.
+      - apply nth_error_None in N. unfold pad_to. rewrite app_nth2 by lia.
+        rewrite FrameProofs.nth_repeat_null. reflexivity. }
+    assert (E2 : sub_of (follow_idx x (i :: j :: r')) = sub_of (follow_idx x' (j :: r'))).
+    { unfold x'. destruct x as [w|xs|s]; simpl as_list.
+      - rewrite FrameProofs.nth_pad_null. reflexivity.
+      - cbn [follow_idx]. destruct (nth_error xs i) as [y|] eqn:N.
+        + unfold pad_to. rewrite app_nth1 by (apply nth_error_Some; congruence).
+          now rewrite (nth_error_nth _ _ _ N).
+        + apply nth_error_None in N. unfold pad_to. rewrite app_nth2 by lia.
+          rewrite FrameProofs.nth_repeat_null. reflexivity.
+      - rewrite FrameProofs.nth_pad_null. reflexivity. }
+    rewrite E1, E2. apply IH. discriminate.
+Qed.
+
+Theorem apply_add_is_add_at : forall p v kvs,
+  p <> [] -> Forall (fun c => key_safe (fst c) = true) p ->
+  apply_add (map render_comp p) v kvs = add_at p v kvs.
+Proof.
+  induction p as [|[k idxs] r IH]; intros v kvs NE F; [contradiction|].
+  inversion F as [|? ? Sk Fr]; subst. simpl in Sk.
+  assert (Pk : plain_comp k = true) by now apply key_safe_plain.
+  destruct r as [|c' r'].
+  - simpl. unfold add. now rewrite comp_parse_render by exact Pk.
+  - change (map render_comp ((k, idxs) :: c' :: r')) with
+      (render_comp (k, idxs) :: map render_comp (c' :: r')).
+    set (rest := map render_comp (c' :: r')).
+    assert (Erest : exists x y, rest = x :: y) by (unfold rest; simpl; eauto).
+    destruct Erest as [x [y Erest]].
+    rewrite Erest, apply_add_cons2, <- Erest. cbv zeta.
+    rewrite parse_list_comp_render by exact Sk.
+    change (add_at ((k, idxs) :: c' :: r') v kvs) with
+      (add_comp (k, idxs) (Con (add_at (c' :: r') v (sub_of (get_comp (k, idxs) kvs)))) kvs).
+    assert (IH' : forall s, apply_add rest v s = add_at (c' :: r') v s)
+      by (intros s; apply IH; [discriminate|exact Fr]).
+    destruct idxs as [|i is].
+    + rewrite render_comp_plain. rewrite (child_plain_key k kvs Pk).
+      unfold add. rewrite (comp_parse_plain k Pk). unfold get_comp. cbn [fst snd follow_idx].
+      rewrite IH'. unfold sub_of. destruct (kv_get k kvs) as [[| |]|]; reflexivity.
+    + rewrite (child_plain_key k kvs Pk).
+      unfold add. rewrite (comp_parse_plain k Pk). unfold add_comp, get_comp. cbn [fst snd].
+      f_equal.
+      set (x0 := match kv_get k kvs with Some x => x | None => null end).
+      assert (El : match kv_get k kvs with Some (Lst xs) => xs | _ => [] end = as_list x0).
+      { unfold x0. destruct (kv_get k kvs) as [[| |]|]; reflexivity. }
+      assert (Ef : sub_of (match kv_get k kvs with Some n => follow_idx n (i :: is) | None => None end) =
+                   sub_of (follow_idx x0 (i :: is))).
+      { unfold x0. destruct (kv_get k kvs); reflexivity. }
+      rewrite El, Ef, apply_list_set_idx by discriminate. now rewrite IH'.
+Qed.
+
+(* hence, on path strings: applying an Add/Change is AddValueAt of the leaf *)
+Theorem apply_add_is_add_value_at k r v old t kvs :
+  forallb step_safe (K k :: r) = true -> t = MAdd \/ t = MChange ->
+  apply (Con kvs) [mkMod t (render_steps (K k :: r)) v old] =
+  Con (add_value_at (render_steps (K k :: r)) (Leaf v) kvs).
+Proof.
+  intros S Ht.
+  assert (E : apply (Con kvs) [mkMod t (render_steps (K k :: r)) v old] =
+              Con (apply_add (split_dots (render_steps (K k :: r))) (Leaf v) kvs)).
+  { unfold apply. simpl. unfold apply_single. simpl. now destruct Ht as [-> | ->]. }
+  rewrite E, split_dots_render by exact S. f_equal.
+  assert (NE : group (K k :: r) <> []).
+  { intro E0. pose proof (group_spec k r) as G. rewrite E0 in G. discriminate. }
+  rewrite apply_add_is_add_at; [|exact NE|now apply group_safe].
+  unfold add_value_at, parse_path. now rewrite render_steps_group by exact S.
+Qed.
+
+(* frame of an applied Add/Change: every existing diverging position is untouched *)
+Theorem apply_add_frame k r k' r' v old t kvs :
+  forallb step_safe (K k :: r) = true -> forallb step_safe (K k' :: r') = true -> t = MAdd \/ t = MChange ->
+  diverge (K k :: r) (K k' :: r') ->
+  lookup (render_steps (K k' :: r')) (Con kvs) <> None ->
+  lookup (render_steps (K k' :: r')) (apply (Con kvs) [mkMod t (render_steps (K k :: r)) v old]) =
+  lookup (render_steps (K k' :: r')) (Con kvs).
+Proof.
+  intros S S' Ht D Ex. rewrite apply_add_is_add_value_at by assumption. now apply add_value_at_frame.
+Qed.
+
+(* an applied Delete makes Lookup of that path return nothing *)
+Theorem apply_delete_lookup path kvs :
+  wf_kvs kvs = true -> plain_comp (last (split_dots path) ""%string) = true ->
+  lookup path (apply (Con kvs) [mkMod MDelete path SNull SNull]) = None.
+Proof. intros W P. unfold apply. simpl. unfold apply_single. simpl. now apply lookup_remove_at. Qed.
